@@ -125,7 +125,8 @@ CHECKS = [
         "property_id": "C10",
         "level": "exploration",
         "technique": "property-based testing (Hypothesis): recursive expression-tree generator over all matrix "
-                     "classes/options vs dense numpy reference, failing sub-expression localised",
+                     "classes/options vs dense numpy reference, failing sub-expression localised; thorough tier adds a "
+                     "coverage-guided phase (atheris/libFuzzer driving the same strategy through fuzz_one_input)",
         "text": "Random expression trees (depth <= 3/4, size <= 6) over every concrete class and constructor option "
                 "are compared observable by observable with dense linear algebra on an independently built "
                 "reference; type-level usability of T/inv/scalar multiples of symmetric and positive-definite "
@@ -138,7 +139,8 @@ CHECKS = [
         "property_id": "C11",
         "level": "exploration",
         "technique": "property-based testing (Hypothesis): directional derivatives of dense formulas by 6th-order "
-                     "finite differences vs reported gradients, structure check",
+                     "finite differences vs reported gradients, structure check; thorough tier adds a coverage-guided "
+                     "phase (atheris/libFuzzer through fuzz_one_input)",
         "text": "All 12 differentiable classes with all options, including SoftAbs at repeated and nearly repeated "
                 "eigenvalues and nested block/low-rank compositions; <grad, D> must equal the derivative of the "
                 "dense formula along a generated structured direction D. Sampling, size <= 5.",
@@ -252,7 +254,8 @@ CHECKS = [
         "level": "exploration",
         "technique": "model-based stateful testing (Hypothesis-generated operation histories): every request vs a "
                      "freshly built instance, byte snapshots of operands and caller arrays, single-option mutants "
-                     "for equality",
+                     "for equality; thorough tier adds a coverage-guided phase (atheris/libFuzzer through "
+                     "fuzz_one_input)",
         "text": "Histories of lazy-attribute requests in arbitrary order, operators, copies/pickles and in-place "
                 "write attempts on expression trees over all classes; results must equal those of a fresh instance, "
                 "operands and caller arrays stay byte-identical, accepted writes must not change the matrix, twins are "
@@ -265,7 +268,8 @@ CHECKS = [
         "property_id": "C20",
         "level": "exploration",
         "technique": "property-based testing (Hypothesis): generated helper calls and operator programs "
-                     "vs a 500-digit decimal reference, ulp-bounded",
+                     "vs a 500-digit decimal reference, ulp-bounded; thorough tier adds a coverage-guided phase "
+                     "(atheris/libFuzzer through fuzz_one_input, mici.utils instrumented)",
         "text": "Generated search over the whole double range, clustered at every branch point of the "
                 "stable formulas, with each result compared against 500-digit decimal arithmetic; "
                 "programs of LogRepFloat operators check aliasing/in-place accumulation. Sampling, not "
